@@ -61,6 +61,15 @@ def handle (ds : DState) (op : String) (args impl : List String) : Option (DStat
     | ["ok", i] =>
       fin { st with forced := true } (judge "forceid" [] [] [("forceId_gives_a_new_wellformed_id", wellFormedV4 i && !(st.ever.any (·.1 == i)))])
     | _ => fin st (.ok "forceid.err")
+  | "id_threads" =>
+    match args, impl with
+    | [k, n], ["ok", total, distinct] =>
+      (match parseNat k, parseNat n, parseNat total, parseNat distinct with
+       | some k, some n, some total, some distinct =>
+         fin st (judge "threads" [toString (k * n), toString (k * n)] [toString total, toString distinct]
+           [("ids_of_concurrent_threads_are_distinct", total == distinct)])
+       | _, _, _, _ => fin st (.malformed "id_threads numbers"))
+    | _, _ => fin st (judge "threads.crashed" impl impl [("ids_of_concurrent_threads_are_distinct", false)])
   | "id_race" =>
     match args, impl with
     | [mode, k, n], ["ok", _, _, total, distinct, same, shTotal, shDistinct] =>
